@@ -28,6 +28,10 @@ CLAIMED["C03"] = ("model_checking", "5 C03",
     "The real StandardTextLayout / Text.rows / Text.pack / Text.render run on fully symbolic short texts with an unbounded symbolic width; order, coverage, fit, "
     "fill, alignment and line-count assertions are discharged on every path.",
     "z3 trusted; text length <= 3 quick / 5 thorough; width table abstracted (any function into {0,1,2} agreeing with wcwidth on ASCII/C0/C1 and a few named characters).")
+CLAIMED["C05"] = ("model_checking", "5 C05",
+    "The real process_keyqueue / Screen.parse_input (with its partial-code carry-over) run on fully symbolic byte streams; for every cut point the solver shows the "
+    "fragmented, the timed-out and the whole delivery yield equal event lists, that nothing is dropped and nothing raises.",
+    "z3 trusted; stream length <= 4 (quick) / 6 (thorough); two fragments; double-byte codec results abstracted by uninterpreted functions.")
 NOT_YET = {}
 TECH = "bounded symbolic execution of the real urwid code (AST-lifted import of /repo) with z3 deciding every path obligation; counterexamples replayed on the un-lifted code"
 def main():
